@@ -1,5 +1,7 @@
 package config
 
+import "github.com/safing/portbase/modules"
+
 // VerifSimReset restores the package to its state at process start
 // (registry with only the built-in options).
 func VerifSimReset() {
@@ -14,3 +16,10 @@ func VerifSimSetConfigPath(p string) { configFilePath = p }
 
 // VerifSimLoadConfig loads the persistence file.
 func VerifSimLoadConfig() error { return loadConfig(false) }
+
+// VerifSimRegisterBasic registers the basic options (normally done in prep).
+func VerifSimRegisterBasic() error { return registerBasicOptions() }
+
+// VerifSimMuteEvents stops the package from triggering its change event
+// (used by harnesses that do not start the module system).
+func VerifSimMuteEvents() { modules.VerifSimMarkStopped(module) }
